@@ -653,7 +653,7 @@ func writeEvidence(cr *checkRun, nClaimed, nDischarged, nReused int, bySolver, b
 		"solver_time_s": round3(solverTime), "max_query_time_s": round3(maxTime),
 		"answers_reused_from_result_store": nReused,
 		"result_store":                     "a query byte-identical (SHA-256 of the SMT-LIB text generated from the current tree) to one a solver already answered reuses that answer from /verif/.cache (not committed; absent on a fresh restore, where every query is solved); solver_time_s counts the time the answer originally took; the thorough tier never reuses answers",
-		"known_findings": known, "unclaimed_undecided": und, "claimed_obligations_absent_from_this_tree": missing,
+		"known_findings":                   known, "unclaimed_undecided": und, "claimed_obligations_absent_from_this_tree": missing,
 		"out_of_reach": cr.outOfReach, "samples": samples,
 		"explanation": "obligations = claimed obligations (discharged on the pinned tree, or new on a function that was fully discharged) generated from the current tree; discharged = those answered unsat now. Known findings and obligations unclaimed at baseline are listed separately and never counted.",
 	}
